@@ -13,7 +13,7 @@ import time
 from props import PROPS, TRUSTED_BASE
 
 VERIF = os.path.dirname(os.path.dirname(os.path.abspath(__file__)))
-REPO = "/repo"
+REPO = os.environ.get("VERIF_REPO") or os.environ.get("VP_RUN_REPO") or "/repo"
 LEAN = os.path.join(VERIF, "lean", "BiscuitModel")
 HARNESS = os.path.join(VERIF, "harness")
 BIN = os.path.join(HARNESS, "bin")
@@ -84,7 +84,15 @@ def build_harness(race=False):
         if os.path.exists(out):
             os.remove(out)
         shutil.copyfile(os.path.join(REPO, "go.sum"), os.path.join(HARNESS, "go.sum"))
-        cmd = ["go", "build", "-tags", "verif"] + (["-race"] if race else []) + ["-o", out, "./cmd/harness"]
+        modflag = []
+        if REPO != "/repo":
+            # a snapshot of the repository (background sweeps): same module file, other replace target
+            alt = os.path.join(HARNESS, "go.alt.mod")
+            with open(alt, "w") as f:
+                f.write(open(os.path.join(HARNESS, "go.mod")).read().replace("=> /repo", "=> " + REPO))
+            shutil.copyfile(os.path.join(REPO, "go.sum"), os.path.join(HARNESS, "go.alt.sum"))
+            modflag = ["-modfile=" + alt]
+        cmd = ["go", "build", "-tags", "verif"] + modflag + (["-race"] if race else []) + ["-o", out, "./cmd/harness"]
         rc, log = sh(cmd, cwd=HARNESS, env=GOENV, timeout=600)
         if rc != 0:
             return False, log
@@ -231,7 +239,7 @@ def run_pipeline(prop, tier, seed, workdir, shard=None):
     corpus = os.path.join(VERIF, "corpus", prop + ".txt")
     if os.path.exists(corpus) and (shard is None or shard == 0):
         cmd += ["-corpus", corpus]
-    env = dict(GOENV, VERIF_DIR=VERIF)
+    env = dict(GOENV, VERIF_DIR=VERIF, VERIF_REPO=REPO)
     with open(os.path.join(out, "harness.log"), "w") as logf:
         p = subprocess.run(cmd, env=env, stdout=logf, stderr=subprocess.STDOUT,
                            timeout=spec.get("timeout", {}).get(tier, 3600))
